@@ -68,6 +68,37 @@ for _cls, _file in (("LazyPRM", "src/ompl/geometric/planners/prm/src/LazyPRM.cpp
                          canaries=[dict(name="old_query_kept", where="body:setProblemDefinition", rx=r"prm_clearQuery\(\);", repl=";")]))
 UNITS += QP_UNITS
 
+BITF3 = "src/ompl/geometric/planners/informedtrees/src/BITstar.cpp"
+CFF = "src/ompl/geometric/planners/cforest/src/CForest.cpp"
+_S3 = __import__("re").S
+BS_RULES = [
+    (r"Planner::checkValidity\(\);", "", 0), (r"!Planner::setup_", "!setup_", 0), (r"throw ompl::Exception\((?:[^()]|\([^()]*\)|\((?:[^()]|\([^()]*\))*\))*\);", "{ thrown = 1; PStatus z_ = {0, 0}; return z_; }", 0),
+    (r"graphPtr_->hasAGoal\(\)", "HAS_GOAL0", 0), (r"graphPtr_->hasAStart\(\)", "HAS_START", 0), (r"graphPtr_->updateStartAndGoalStates\(Planner::pis_, ptc\);", "goal_waits++;", 0),
+    (r"queuePtr_->insertOutgoingEdgesOfStartVertices\(\);", "start_edges_inserted++;", 0),
+    (r"!ptc\b", "!PTC()", 0), (r"costHelpPtr_->isSatisfied\(bestCost_\)", "IS_SATISFIED()", 0), (r"costHelpPtr_->isCostBetterThan\(graphPtr_->minCost\(\), bestCost_\)", "BETTER()", 0),
+    (r"Planner::pis_\.haveMoreStartStates\(\)", "MORE_STARTS", 0), (r"Planner::pis_\.haveMoreGoalStates\(\)", "MORE_GOALS", 0), (r"this->iterate\(\);", "ITERATE();", 0),
+    (r"this->end(?:Success|Failure)Message\(\);", ";", 0), (r"graphPtr_->getTrackApproximateSolutions\(\)", "TRACK_APPROX", 0), (r"this->publishSolution\(\);", "published++;", 0),
+    (r"return \{(.*?),\s*(.*?)\};", r"{ PStatus r_ = {\1, \2}; return r_; }", 0, _S3),
+]
+CF_RULES = [
+    (r"checkValidity\(\);", "", 0), (r"time::point start = time::now\(\);", "", 0), (r"std::vector<std::thread \*> threads\(planners_\.size\(\)\);", "", 0),
+    (r"const base::ReportIntermediateSolutionFn prevSolutionCallback =\s*getProblemDefinition\(\)->getIntermediateSolutionCallback\(\);", "const int prevSolutionCallback = callback_now;", 0),
+    (r"pdef_->setIntermediateSolutionCallback\(\s*\[this\]\(.*?\}\);", "callback_now = OWN_CALLBACK;", 0, _S3),
+    (r"bestCost_ = opt_->infiniteCost\(\);", "bestCost_ = __builtin_inf();", 0),
+    (r"for \(std::size_t i = 0; i < threads\.size\(\); \+\+i\)\s*\{.*?\n    \}", "for (unsigned i = 0; i < NPLANNERS; ++i) { RUN_PLANNER(); }", 0, _S3),
+    (r"for \(auto &thread : threads\)\s*\{.*?\}", "", 0, _S3),
+    (r"getProblemDefinition\(\)->setIntermediateSolutionCallback\(prevSolutionCallback\);", "callback_now = prevSolutionCallback;", 0),
+    (r"return \{pdef_->hasSolution\(\), pdef_->hasApproximateSolution\(\)\};", "{ PStatus r_ = {HAS_SOL, HAS_APPROX}; return r_; }", 0),
+]
+SH_SRC = [dict(name="bit_solve", file=BITF3, sig=r"ompl::base::PlannerStatus BITstar::solve\(const ompl::base::PlannerTerminationCondition &ptc\)", rules=BS_RULES, loops={"allow_uncontracted": True}),
+          dict(name="cf_solve", file=CFF, sig=r"ompl::base::PlannerStatus ompl::geometric::CForest::solve\(const base::PlannerTerminationCondition &ptc\)", rules=CF_RULES, loops={"allow_uncontracted": True})]
+UNITS.append(dict(name="c03_bitstar_solve_shell", template="C03/bit_solve.c", mode="plain", entry="h_bit_solve", sources=SH_SRC, needs=["bit_solve"], flags=["--bounds-check", "--pointer-check", "--unsigned-overflow-check"], unwind=6, level="bounded",
+                  bound="<= 3 iterations of the search loop", backend="minisat", timeout=300, functions=["ompl::geometric::BITstar::solve (everything around iterate())"],
+                  canaries=[dict(name="stop_flag_of_the_previous_call_kept", where="body:bit_solve", rx=r"stopLoop_ = false;", repl=";")]))
+UNITS.append(dict(name="c03_cforest_solve_shell", template="C03/bit_solve.c", mode="plain", entry="h_cf_solve", sources=SH_SRC, needs=["cf_solve"], flags=["--bounds-check", "--pointer-check", "--unsigned-overflow-check"], unwind=6, level="bounded",
+                  bound="<= 3 planner instances, run one after the other (the threads are not modelled)", backend="minisat", timeout=300, functions=["ompl::geometric::CForest::solve (everything around the planner threads)"],
+                  canaries=[dict(name="best_cost_not_reinitialised", where="body:cf_solve", rx=r"bestCost_ = __builtin_inf\(\);", repl=";")]))
+
 _v = copy.deepcopy(C01.NG_UNIT); _v["name"] = "c03_inputstates_nextGoal_ptc"; UNITS.append(_v)
 ASSUMPTIONS = C01.ASSUMPTIONS + ["the termination condition returns an arbitrary value at every evaluation (so every interruption point is covered); executions that create fewer than 8 motions"]
 TRUSTED = C01.TRUSTED
